@@ -313,7 +313,7 @@ compress_output(j_compress_ptr cinfo, _JSAMPIMAGE input_buf)
 {
   my_diff_ptr diff = (my_diff_ptr)cinfo->coef;
   int ci, compi;
-  _JSAMPARRAY buffer[MAX_COMPS_IN_SCAN];
+  _JSAMPARRAY buffer[MAX_COMPONENTS];
   jpeg_component_info *compptr;
 
   /* Align the virtual buffers for the components used in this scan.
